@@ -36,7 +36,7 @@ class Minus(nn.Module):
 
 
 def cases(tier, seed):
-    rs, rt = (12, 10) if tier == "quick" else (600, 400)
+    rs, rt = (12, 10) if tier == "quick" else (1800, 1200)
     out = []
     for nt in zoo.NOISE_TYPES:
         for r in range(rs):
